@@ -23,6 +23,24 @@ CHECKS = {
              "after every operation on every feasible path.",
         technique="symbolic execution of bt/core.py on rational-function values over operation sequences, z3 per path, concrete replay of models",
         ref="DESIGN.md §3 C01"),
+    'C02': dict(
+        text="Same operation-sequence machinery with a ghost ledger kept by the harness: after every operation the change of root value is proved "
+             "equal to the injected flow minus the commissions and half-spreads of the trades it caused, every date change to mark-to-market plus "
+             "carry, and the recorded value series to the full decomposition, for symbolic capital, positions, amounts and an uninterpreted commission.",
+        technique="symbolic execution of bt/core.py over operation sequences with ghost P&L attribution, z3 per path, concrete replay",
+        ref="DESIGN.md §3 C02"),
+    'C07': dict(
+        text="Per strategy node and date the cash-ledger identity, and per security/parent the recorded outlay / fee / bid-offer rows against the "
+             "harness's ghost trades (position deltas at market or custom price, commission function evaluated by the harness), proved on every "
+             "feasible path of symbolic operation sequences over flat, nested and three-level trees.",
+        technique="symbolic execution of bt/core.py over operation sequences with a ghost cash ledger, z3 per path, concrete replay",
+        ref="DESIGN.md §3 C07"),
+    'C08': dict(
+        text="After symbolic operation histories whose last operation is left un-synced: every public accessor of every node is read on a deep copy "
+             "directly and on another after an explicit update and proved equal cell by cell; redundant updates are proved to change no accessor; rows "
+             "captured when the clock moved are proved unchanged later; no series extends past now.",
+        technique="symbolic execution of bt/core.py; relational snapshot comparison of accessors on symbolic trees, z3 per path, concrete replay",
+        ref="DESIGN.md §3 C08"),
 }
 
 NOT_YET = "check not built yet in this session (planned in DESIGN.md §3); will move to checks when its harness lands"
